@@ -2130,6 +2130,10 @@ class Pending(object):
             # recorded as fixed in /repo, and it happened again: a real violation
             self.ctx.report_failure(key + ':regressed', what, replay)
             return
+        if not self.ctx.known.dev:
+            # not listed in known_findings.json: an ordinary violation
+            self.ctx.report_failure(key, PENDING_FINDINGS[cls] + ' — e.g. ' + what, replay)
+            return
         h = self.hits.setdefault(cls, {'key': key, 'what': PENDING_FINDINGS[cls], 'n': 0, 'first_witness': what[:700],
                                        'replay': replay})
         h['n'] += 1
